@@ -139,6 +139,19 @@ func runC06(r *run) {
 			continue
 		}
 		p := c.payload
+		// the Lean scanner (the one the hygiene theorem is about) and this oracle's tracker agree on
+		// the payload and on a damaged copy of it (one reset sequence removed)
+		verdict := func(b []byte) string {
+			if sgrCheck(b) == "" {
+				return "clean"
+			}
+			return "dirty"
+		}
+		r.emit("Q sgr "+hx(p), verdict(p))
+		if idx := bytes.LastIndex(p[:len(p)/2+1], []byte("\x1b[0m")); idx >= 0 && i%3 == 0 {
+			damaged := append(append([]byte{}, p[:idx]...), p[idx+4:]...)
+			r.emit("Q sgr "+hx(damaged), verdict(damaged))
+		}
 		if d := sgrCheck(p); d != "" {
 			r.violate(violation{What: "colour hygiene: " + d, Input: encDescribe(c), Actual: fmt.Sprintf("%q", p)})
 			continue
